@@ -470,7 +470,7 @@ class PreparedStatementPlanner():
         if isinstance(query, ast.Select):
             # prepare select
             return self.prepare_select(query)
-        if isinstance(query, ast.Union):
+        if isinstance(query, (ast.Union, ast.Intersect, ast.Except)):
             # get column definition only from select
             return self.prepare_select(query.left)
         if isinstance(query, ast.Insert):
@@ -517,7 +517,7 @@ class PreparedStatementPlanner():
 
         if (
                 isinstance(query, ast.Select)
-                or isinstance(query, ast.Union)
+                or isinstance(query, (ast.Union, ast.Intersect, ast.Except))
                 or isinstance(query, ast.CreateTable)
                 or isinstance(query, ast.Insert)
                 or isinstance(query, ast.Update)
